@@ -606,9 +606,10 @@ func Run(c *verdict.Ctx) int {
 		return replay(c)
 	}
 	c.Level = "exploration"
-	c.Rule = "N1: a run = (transport, channel set, rates, sender schedule) and is non-trivial when both directions accepted and delivered messages on >= 2 channels; " +
+	c.Rule = "N1: a run = (transport, channel set incl. ids >= 0x80, rates, sender schedule) and is non-trivial when both directions accepted and delivered messages on >= 2 channels; " +
+		"N1-park: a case = (burst shape, channel priorities, queue capacities, message sizes around multiples of the packet payload) in which >= 2 messages were accepted and then nothing more was sent; " +
 		"N2: a case = (packet class, parameters, channel capacities) executed against a real MConnection; " +
-		"N3-lite: an input = (reactor channel, peer state, message class, bytes) that was handed to a live reactor's Receive path by a real switch; distinct by descriptor hash"
+		"N3-lite: an input = (reactor channel, peer state, message class, bytes) that was handed to a live reactor's Receive path by a real switch while the node stood in a recorded consensus step (new-height incl. the initial height before round 0, propose, prevote, precommit); distinct by descriptor hash"
 	c.Assume(
 		"protobuf encoding/decoding of packets and reactor messages (gogo/protobuf) is shared with the implementation",
 		"ed25519 signing is shared with the implementation",
